@@ -20,8 +20,10 @@ Definition route_cuda (ge24 : bool) (adt wdt : dtype) (tokens inf outf : Z) : ro
   if (dt_eqb adt DInt8 && dt_eqb wdt DInt8 && (tokens >? 16) && (tokens mod 8 =? 0) && (inf mod 8 =? 0) && (outf mod 8 =? 0)) then RIntMM else RFloat.
 Definition route_mps (ge24 : bool) (adt wdt : dtype) (tokens inf outf : Z) : route :=
   if (ge24 && dt_eqb adt DBF16 && dt_eqb wdt DInt8 && (inf mod 32 =? 0) && (outf mod 32 =? 0)) then RInt8Pack else RFloat.
-Definition mm_int_route (dev_cuda dev_cpu ge24 a_qint8 w_qint8 : bool) (tokens inf outf : Z) : bool :=
-  ((dev_cuda || (dev_cpu && ge24)) && a_qint8 && w_qint8 && (tokens >? 16) && (tokens mod 8 =? 0) && (inf mod 8 =? 0) && (outf mod 8 =? 0)).
+(* a_outer_axis / w_outer_axis: the operand is quantized per-tensor or along its NON-contracted dimension (rows of the
+   first operand, columns of the second): only then does its scale factor out of the product (repair F36) *)
+Definition mm_int_route (dev_cuda dev_cpu ge24 a_qint8 w_qint8 a_outer_axis w_outer_axis : bool) (tokens inf outf : Z) : bool :=
+  ((dev_cuda || (dev_cpu && ge24)) && a_qint8 && w_qint8 && a_outer_axis && w_outer_axis && (tokens >? 16) && (tokens mod 8 =? 0) && (inf mod 8 =? 0) && (outf mod 8 =? 0)).
 
 (* fingerprints of the numeric route bodies the exact-arithmetic model (Proofs/MMProofs.v) was written against *)
 Definition mm_prints : list (string * string) := [
@@ -29,7 +31,7 @@ Definition mm_prints : list (string * string) := [
   ("qbytes_int_mm"%string, "c6cafb4939134d42"%string);
   ("qbytes_int8pack_mm"%string, "a57519cf4fd11f5a"%string);
   ("qbytes_mm_impl_default"%string, "5d41f850f7a5b9d8"%string);
-  ("aten.mm"%string, "70b595f473655d10"%string);
+  ("aten.mm"%string, "741cc344d331c8a4"%string);
   ("aten.bmm"%string, "3eb1ab1fb152c011"%string);
   ("QTensorLinear.forward"%string, "462a7dfd205c3ccc"%string);
   ("linear"%string, "047e6587fc053914"%string);
